@@ -14,7 +14,7 @@ set_option linter.unusedSimpArgs false
 open NiftyVerif.Iter
 
 variable {K V : Type} [Field K] [LinearOrder K] [IsStrictOrderedRing K] [AddCommGroup V] [Module K V]
-variable (c : Cfg K) (ip : V → V → K) (mat : V → V) (j : V)
+variable (c : Cfg K) (ip : V → V → K) (nrm : V → K) (mat : V → V) (j : V)
 
 /-- the quadratic energy `E(x) = ½⟨A x, x⟩ − ⟨j, x⟩` -/
 def quadE (x : V) : K := (half : K) * ip (mat x) x - ip j x
@@ -27,7 +27,7 @@ def FinalSpec (res : Res K V) : Prop :=
   match res.why with
   | .startZero => res.info = 0 ∧ res.nit = 0 ∧ trueGamma ip mat j res.x = 0
   | .gammaTiny => res.info = 0 ∧ 0 ≤ trueGamma ip mat j res.x ∧ trueGamma ip mat j res.x ≤ c.tiny
-  | .resnorm => res.info = 0 ∧ resActive c = true ∧ normLt c (ip j j) (trueGamma ip mat j res.x) = true
+  | .resnorm => res.info = 0 ∧ resActive c = true ∧ normLt c ip nrm j (mat res.x - j) = true
       ∧ miniterEff c ≤ res.nit
   | .absdelta => res.info = 0 ∧ miniterEff c ≤ res.nit ∧ ∃ a xp, c.absdelta = some a
       ∧ quadE ip mat j xp - quadE ip mat j res.x < a
@@ -65,9 +65,9 @@ theorem init_invA (hip : Bilin ip) (hm : Linear (K := K) mat) (x0 : Option V) :
 /-- what one iteration of the eager loop guarantees, given invariant A -/
 theorem eagerStep_specA (hip : Bilin ip) (hm : Linear (K := K) mat) (i : Nat) (hi : 1 ≤ i) (s : St K V)
     (hinv : InvA ip mat j s) :
-    match eagerStep c ip mat j i s with
+    match eagerStep c ip nrm mat j i s with
     | .next s' => InvA ip mat j s'
-    | .stop (.ok res) => FinalSpec c ip mat j res ∧ res.nit = i ∧ res.why ≠ .maxiter ∧ res.why ≠ .startZero
+    | .stop (.ok res) => FinalSpec c ip nrm mat j res ∧ res.nit = i ∧ res.why ≠ .maxiter ∧ res.why ≠ .startZero
         ∧ (res.why ≠ .negCurvFirst → res.r = mat res.x - j ∧ res.gamma = ip res.r res.r) ∧ 0 ≤ res.info
     | .stop (.error _) => c.raiseNPD = true := by
   obtain ⟨hr, hg, he⟩ := hinv
@@ -109,8 +109,8 @@ theorem eagerStep_specA (hip : Bilin ip) (hm : Linear (K := K) mat) (i : Nat) (h
   · exact ⟨rfl, rfl, rfl⟩
 
 theorem loop_specA (hip : Bilin ip) (hm : Linear (K := K) mat) : ∀ (fuel i : Nat) (s : St K V), 1 ≤ i →
-    i + fuel = maxiterEff c + 1 → InvA ip mat j s → ∀ res, eagerLoop c ip mat j fuel i s = .ok res →
-    FinalSpec c ip mat j res ∧ (res.why ≠ .negCurvFirst → res.r = mat res.x - j ∧ res.gamma = ip res.r res.r)
+    i + fuel = maxiterEff c + 1 → InvA ip mat j s → ∀ res, eagerLoop c ip nrm mat j fuel i s = .ok res →
+    FinalSpec c ip nrm mat j res ∧ (res.why ≠ .negCurvFirst → res.r = mat res.x - j ∧ res.gamma = ip res.r res.r)
       ∧ 0 ≤ res.info ∧ res.nit ≤ maxiterEff c ∧ res.why ≠ .startZero := by
   intro fuel
   induction fuel with
@@ -124,9 +124,9 @@ theorem loop_specA (hip : Bilin ip) (hm : Linear (K := K) mat) : ∀ (fuel i : N
     exact ⟨by rw [h1], h1⟩
   | succ fuel ih =>
     intro i s hi hsum hinv res hres
-    have hstep := eagerStep_specA c ip mat j hip hm i hi s hinv
+    have hstep := eagerStep_specA c ip nrm mat j hip hm i hi s hinv
     rw [eagerLoop] at hres
-    cases hE : eagerStep c ip mat j i s with
+    cases hE : eagerStep c ip nrm mat j i s with
     | stop r =>
       rw [hE] at hstep hres
       simp only at hres
@@ -141,8 +141,8 @@ theorem loop_specA (hip : Bilin ip) (hm : Linear (K := K) mat) : ∀ (fuel i : N
 
 /-- everything `_cg` certifies about its result, for every bilinear `ip` and linear `mat` -/
 theorem cgEager_specA (hip : Bilin ip) (hm : Linear (K := K) mat) (x0 : Option V) (res : Res K V)
-    (hres : cgEager c ip mat j x0 = .ok res) :
-    FinalSpec c ip mat j res ∧ (res.why ≠ .negCurvFirst → res.r = mat res.x - j ∧ res.gamma = ip res.r res.r)
+    (hres : cgEager c ip nrm mat j x0 = .ok res) :
+    FinalSpec c ip nrm mat j res ∧ (res.why ≠ .negCurvFirst → res.r = mat res.x - j ∧ res.gamma = ip res.r res.r)
       ∧ 0 ≤ res.info ∧ res.nit ≤ maxiterEff c := by
   have hinit := init_invA ip mat j hip hm x0
   unfold cgEager at hres
@@ -154,7 +154,7 @@ theorem cgEager_specA (hip : Bilin ip) (hm : Linear (K := K) mat) (x0 : Option V
     simp only [FinalSpec, trueGamma]
     refine ⟨trivial, trivial, ?_⟩
     rw [← hinit.1, ← hinit.2.1]; exact hz
-  · obtain ⟨h1, h2, h3, h4, _⟩ := loop_specA c ip mat j hip hm (maxiterEff c) 1 _ (le_refl _) (by omega) hinit res hres
+  · obtain ⟨h1, h2, h3, h4, _⟩ := loop_specA c ip nrm mat j hip hm (maxiterEff c) 1 _ (le_refl _) (by omega) hinit res hres
     exact ⟨h1, h2, h3, h4⟩
 
 end NiftyVerif.CgRe
